@@ -88,3 +88,87 @@ Section Verdict.
   Definition eq_run (ops : list eq_op) (q : EQ) : EQ := fst (eq_trace ops q).
   Definition eq_outs (ops : list eq_op) (q : EQ) : list eq_out := snd (eq_trace ops q).
 End Verdict.
+
+(* ---------------------------------------------------------------------------------------------
+   Environment model for the composition theorem (not code of /repo): the simulator and a viewer
+   around ONE region's proxy-side event queue.
+   Simulator: owns a list of batches it will send; every forwarded poll that it answers with events
+   takes the NEXT batch - once a batch has been sent it is gone, whatever the viewer acknowledged
+   (the "sim's EQ acking mechanism doesn't work" situation the replay cache exists for); it may also
+   answer with a non-200 status or with an undef body.  It is never asked again for a repeated ack of a
+   lost response, because the proxy answers that request from its cache.
+   Viewer: polls with the id of the last response it received (undef at first); any response may be lost on
+   the way, after which it polls again with the same ack; a received response whose id it has already
+   seen is not accepted a second time. *)
+
+Record Viewer := mkViewer {
+  v_ack : option N;          (* id of the last response received *)
+  v_seen : list N;           (* ids accepted so far *)
+  v_accepted : list ev;      (* the stream of events accepted so far *)
+}.
+
+Definition viewer_init : Viewer := mkViewer None [] [].
+
+Definition viewer_receive (v : Viewer) (p : payload) : Viewer :=
+  if existsb (N.eqb (p_id p)) (v_seen v)
+  then mkViewer (Some (p_id p)) (v_seen v) (v_accepted v)
+  else mkViewer (Some (p_id p)) (p_id p :: v_seen v) (v_accepted v ++ p_events p).
+
+Inductive sim_reply :=
+| SBatch               (* 200 with the next batch (a 502 timeout when nothing is left) *)
+| SStatus (st : N)     (* any status, no usable body *)
+| SUndef.              (* 200 with an undef body *)
+
+Inductive sys_op :=
+| YInject (n : N)                            (* the proxy injects event (Injected, n) *)
+| YCycle (reply : sim_reply) (lost : bool).  (* one poll of the viewer; [reply] is used only when the poll is forwarded *)
+
+Record Sys := mkSys {
+  y_eq : EQ;
+  y_viewer : Viewer;
+  y_sim : list payload;        (* batches the simulator has not sent yet *)
+  y_served : list payload;     (* ghost: batches sent so far, in order *)
+  y_injected : list ev;        (* ghost: events injected so far, in order *)
+}.
+
+Definition sys_init (batches : list payload) : Sys := mkSys eq_init viewer_init batches [] [].
+
+Section System.
+  Variable swallow : ev -> bool.
+
+  Definition sys_step (y : Sys) (o : sys_op) : Sys :=
+    match o with
+    | YInject n =>
+        mkSys (inject (y_eq y) (Injected, n)) (y_viewer y) (y_sim y) (y_served y) (y_injected y ++ [(Injected, n)])
+    | YCycle reply lost =>
+        let v := y_viewer y in
+        match poll_request (y_eq y) (v_ack v) with
+        | Some p =>                       (* answered by the proxy from its cache; the simulator is not involved *)
+            mkSys (y_eq y) (if lost then v else viewer_receive v p) (y_sim y) (y_served y) (y_injected y)
+        | None =>                         (* forwarded *)
+            let '(status, body, sim', served') :=
+              match reply, y_sim y with
+              | SBatch, b :: rest => (200%N, Some b, rest, y_served y ++ [b])
+              | SBatch, [] => (502%N, None, [], y_served y)
+              | SStatus st, _ => (st, None, y_sim y, y_served y)
+              | SUndef, _ => (200%N, None, y_sim y, y_served y)
+              end in
+            let (q', out) := poll_response swallow (y_eq y) (v_ack v) status body in
+            let v' := if lost then v
+                      else match N.eqb status 200, out with
+                           | true, Some p => viewer_receive v p
+                           | _, _ => v
+                           end in
+            mkSys q' v' sim' served' (y_injected y)
+        end
+    end.
+
+  Definition sys_run (ops : list sys_op) (y : Sys) : Sys := fold_left sys_step ops y.
+
+  (* the body produced for the viewer that it has not received yet (lost so far) *)
+  Definition in_flight (y : Sys) : list ev :=
+    match q_last_payload (y_eq y) with
+    | Some p => if existsb (N.eqb (p_id p)) (v_seen (y_viewer y)) then [] else p_events p
+    | None => []
+    end.
+End System.
